@@ -41,9 +41,9 @@ dimensions, number of fills), and transfers theorems of one property to the mode
 * C09 models only flat one-dimensional edges with scalar coordinates and weight 1, and has no builtin
   `TypeError`/`IndexError` outcomes of ill-typed bins; C06's `HistEl.new` has no `make_bins` (the bridge passes the
   effective bins) and no `LenaTypeError` for "both bins and make_bins".
-* C12's `mkHist` answers `unmodelled` for nested edges with a single axis (`[[0, 1, 2]]`), which C06 models
-  literally (the `dim == 1` quirk, notes/C06_defect_1.md): `mkHist_12_06` excludes them, `mkHist_12_nested1`
-  says what C12 does there.  C12 has no `fill`; C06 has no `add`/`scale`.
+* C12's `mkHist` answers `unmodelled` for nested edges with a single axis (`[[0, 1, 2]]`), which C06 and C11 model
+  (as the code is after the fix 8d715e5, notes/C06_defect_1.md): `mkHist_12_06` excludes them,
+  `mkHist_12_nested1` says what C12 does there.  C12 has no `fill`; C06 has no `add`/`scale`.
 * C11's walk (`SplitIntoBins.fill`) and C06's walk (`histogram.fill`) are different Python loops; C11 calls
   every irregular situation `unmodelled` where C06 has the builtin exception: C11 *refines* C06
   (`fillWalk_11_06`: whatever C11 returns, C06 returns), and on regular bins both return the same
@@ -258,19 +258,15 @@ theorem mkHist_natural [Zero β] [Zero β'] (hf : OrdEmb f) (g : β → β') (g0
       | ok n =>
         cases e with
         | flat arr =>
-          simp only [mapEdges, C06.Edges.len, List.length_map]
+          simp only [mapEdges, List.length_map]
           by_cases h : n = arr.length - 1 <;> simp [h, mapOk, pure, Except.pure, mapHist, g0, mapEdges]
         | nested axes =>
-          simp only [mapEdges, C06.Edges.len, List.length_map]
-          by_cases hd : axes.length = 1
-          · simp only [hd, if_true]
-            by_cases h : n = 1 - 1 <;> simp [h, mapOk, pure, Except.pure, mapHist, g0, mapEdges]
-          · simp only [hd, if_false]
-            cases axes with
-            | nil => rfl
-            | cons a0 rest =>
-              simp only [List.map_cons, List.length_map]
-              by_cases h : n = a0.length - 1 <;> simp [h, mapOk, pure, Except.pure, mapHist, g0, mapEdges]
+          simp only [mapEdges, List.length_map]
+          cases axes with
+          | nil => rfl
+          | cons a0 rest =>
+            simp only [List.map_cons, List.length_map]
+            by_cases h : n = a0.length - 1 <;> simp [h, mapOk, pure, Except.pure, mapHist, g0, mapEdges]
 
 /-- the walk of `histogram.fill` through the nested bins (histogram.py:239-264): `C06.fillWalk` commutes with an
 additive translation of the contents.  Any bins (irregular ones too), any index list. -/
@@ -757,7 +753,8 @@ theorem mkHist_12_06 (e : C12.Edges) (hn : ∀ ax, e ≠ .nested [ax]) (bins : O
               by_cases h : n = a0.length - 1 <;> simp [h, pure, Except.pure, mapOk, hist06to12, edges06to12]
 
 /-- outside the common domain: for one nested axis C12 stops with `unmodelled` after the check of the edges, while
-C06 transcribes the `dim == 1` branch literally (`C06.mkHist_bins`, notes/C06_defect_1.md) -/
+C06 transcribes the constructor for this format too (`C06.mkHist_bins`; the branch repaired by 8d715e5,
+notes/C06_defect_1.md) -/
 theorem mkHist_12_nested1 (ax : List Rat) (bins : Option (NArr Rat)) (init : Rat) :
     C12.mkHist (.nested [ax]) bins init =
       (match C06.checkEdgesIncreasing (.nested [ax] : C06.Edges Rat) with
@@ -1088,8 +1085,8 @@ variable {α β ε : Type} [LT α] [LE α] [DecidableLT α] [DecidableLE α] [De
 def hist06to11 (h : C06.Hist α β) : C11.Hist α β := ⟨h.edges, h.bins⟩
 
 /-- `histogram.__init__(edges, bins)` (histogram.py:117-164) with bins given: `C11.mkHistogram` ↔ `C06.mkHist`.
-ALL edges and bins (also the `[[…]]` quirk, which both transcribe literally); same exception through C11's own
-class map `Exc.ofErr`.  (`init` is not looked at when bins are given.) -/
+ALL edges and bins (also the one-axis nested format `[[…]]`, whose shape test was repaired by 8d715e5: both
+transcribe the repaired test); same exception through C11's own class map `Exc.ofErr`.  (`init` is not looked at when bins are given.) -/
 theorem mkHistogram_11_06 [Zero β] (edges : C06.Edges α) (bins : NArr β) (init : β) :
     (C11.mkHistogram edges bins : Except (C11.Exc ε) (C11.Hist α β)) =
       match C06.mkHist edges (some bins) init with
@@ -1105,18 +1102,12 @@ theorem mkHistogram_11_06 [Zero β] (edges : C06.Edges α) (bins : NArr β) (ini
     | ok n =>
       cases edges with
       | flat arr =>
-        simp only [C06.Edges.len]
         by_cases h : n = arr.length - 1 <;> simp [h, pure, Except.pure, hist06to11, C11.Exc.ofErr]
       | nested axes =>
-        simp only [C06.Edges.len]
-        by_cases hd : axes.length = 1
-        · simp only [hd, if_true]
-          by_cases h : n = 1 - 1 <;> simp [h, pure, Except.pure, hist06to11, C11.Exc.ofErr]
-        · simp only [hd, if_false]
-          cases axes with
-          | nil => rfl
-          | cons a0 rest =>
-            by_cases h : n = a0.length - 1 <;> simp [h, pure, Except.pure, hist06to11, C11.Exc.ofErr]
+        cases axes with
+        | nil => rfl
+        | cons a0 rest =>
+          by_cases h : n = a0.length - 1 <;> simp [h, pure, Except.pure, hist06to11, C11.Exc.ofErr]
 
 /-- the walk through the nested bins along the bin index — `SplitIntoBins.fill` (split_into_bins.py:351-362,
 `C11.fillWalk` with a cell action that adds `w`) against `histogram.fill` (histogram.py:239-264, `C06.fillWalk`):
@@ -1335,7 +1326,7 @@ example : C06.fill (fun _ => midGuess) (hist09to06 exEs ⟨[7], 0⟩) (.scalar 2
   fill_09_06 (fun _ => midGuess) exEs ⟨[7], 0⟩ 2 (midGuess_ok.at _ _) exEs_inc (by decide)
 -- construction: success and both failures
 example : C06.mkHist (.flat exEs) none (2 : Int) = .ok (hist09to06 exEs ⟨[2, 2], 0⟩) := mkHist_09_06 exEs none 2
-example : C06.mkHist (.flat [0, 1, 1]) (none : Option (NArr Int)) (0 : Int) = .error .lenaValueError :=
+example : C06.mkHist (.flat [0, 1, 1] : C06.Edges Int) (none : Option (NArr Int)) (0 : Int) = .error .lenaValueError :=
   mkHist_09_06 [0, 1, 1] none 0
 example : C06.mkHist (.flat exEs) (some (liftBins [1])) (0 : Int) = .error .lenaValueError :=
   mkHist_09_06 exEs (some [1]) 0
@@ -1352,29 +1343,38 @@ example : ∃ e0 e, C06.HistEl.new ([] : C09.Ctx) (.flat exEs) none (2 : Int) = 
   exact ⟨e0, e, h1, h2, by rw [h4]; decide⟩
 
 example : C12.getNevents (hist09to12 exEs ((C09.histogramM exCfg ⟨⟨[2, 2], 0⟩, []⟩).fillAll ⟨⟨[2, 2], 0⟩, []⟩
-    [⟨2, none⟩, ⟨5, none⟩])).hist true = 6 := by
-  rw [c12_nevents_of_c09_flow exCfg _ exCfg_new]; decide
+    [⟨2, none⟩, ⟨5, none⟩]).hist) true = 6 := by
+  have := c12_nevents_of_c09_flow exCfg _ exCfg_new [⟨2, none⟩, ⟨5, none⟩]
+  rw [show exCfg.edges = exEs from rfl] at this
+  rw [this]; decide
 
 -- section 5: the two transcriptions of the element inside C09 agree on this configuration
 example : C09.HistogramNd.new (cfg1dToNd exCfg) = .ok (st1dToNd exEs ⟨⟨[2, 2], 0⟩, []⟩) := by
-  rw [histogramNd_new, exCfg_new]
+  rw [histogramNd_new, exCfg_new]; rfl
 example : C09.HistogramNd.new (cfg1dToNd ⟨exEs, some [1, 1], some [1, 1], 0⟩) = .error .typeError := by
   rw [histogramNd_new]; rfl
 
 -- section 3: C12 ↔ C06
+theorem exQ_axis : C06.ValidAxis ([0, 1, 3] : List Rat) := ⟨by decide, by unfold C06.StrictInc; decide⟩
 /-- valid flat edges over `Rat` -/
 theorem exQ_valid : C06.ValidEdges (edges12to06 (.flat [0, 1, 3])) := by
   refine ⟨by simp [edges12to06, C06.Edges.axes], ?_⟩
   intro arr h
   simp only [edges12to06, C06.Edges.axes, List.mem_cons, List.not_mem_nil, or_false] at h
   subst h
-  exact ⟨by decide, by unfold C06.StrictInc; decide⟩
+  exact exQ_axis
+theorem exQ1_valid : C06.ValidEdges (.nested [[0, 1, 3]] : C06.Edges Rat) := by
+  refine ⟨by simp [C06.Edges.axes], ?_⟩
+  intro arr h
+  simp only [C06.Edges.axes, List.mem_cons, List.not_mem_nil, or_false] at h
+  subst h
+  exact exQ_axis
 
 example : C12.mkHist (.nested [[0, 1, 3], [0, 2]]) none 0
     = mapOk hist06to12 (C06.mkHist (.nested [[0, 1, 3], [0, 2]]) none 0) :=
   mkHist_12_06 _ (by intro ax h; cases h) none 0
 example : C12.mkHist (.nested [[0, 1, 3]]) none 0 = .error .unmodelled := by
-  rw [mkHist_12_nested1]; decide
+  rw [mkHist_12_nested1, C06.checkEdgesIncreasing_ok exQ1_valid]
 
 example : ∃ h₀ h, C12.mkHist (.flat [0, 1, 3]) none 0 = .ok h₀ ∧
     C06.fillAll (hist12to06 h₀) [(fun _ => midGuess, .scalar 2, 5), (fun _ => midGuess, .scalar 7, (1 : Rat) / 2)] = .ok h ∧
@@ -1391,10 +1391,10 @@ example : ∃ h₀ h, C12.mkHist (.flat [0, 1, 3]) none 0 = .ok h₀ ∧
 /-- a well-formed C06 state over `Rat` -/
 def exQ : C06.Hist Rat Rat := { edges := .flat [0, 1, 3], bins := .node [.leaf 1, .leaf 2], nOut := 1, dim := 1 }
 theorem exQ_wf : C06.WF exQ := ⟨exQ_valid, by simp [exQ, C06.dimsOf, C06.Edges.axes, NArr.HasShape]⟩
-example : ∃ c, C12.add (hist06to12 exQ) (hist06to12 exQ) (1 / 2) ⟨1 / 1000000000, 0⟩ = .ok c ∧
+example : ∃ c, C12.add (hist06to12 exQ) (hist06to12 exQ) (1 / 2) ⟨0, 0⟩ = .ok c ∧
     C06.total c.bins + c.nOut = (C06.total exQ.bins + exQ.nOut) + (C06.total exQ.bins + exQ.nOut) * (1 / 2) := by
   obtain ⟨c, h1, _, h3⟩ := c06_add_defined_and_conserves exQ_wf exQ_wf rfl (by intro ax h; cases h) (1 / 2)
-    ⟨1 / 1000000000, 0⟩ (by decide)
+    ⟨0, 0⟩ Rat.le_refl
   exact ⟨c, h1, h3⟩
 
 -- section 6: C11 ↔ C06
@@ -1410,8 +1410,8 @@ def exCount : C11.Analysis Int (List Int) Int Unit where
   fill c _ := .ok (c + 1)
   compute c := ⟨[c], none⟩
 
-example : ∃ s' h', C11.SIB.fill [] exCount C11.exAv C11.exG ⟨exEdges, NArr.full [3, 2] 0, []⟩ (.bare [3, 1]) = .ok s' ∧
-    C06.fill C11.exG { edges := exEdges, bins := NArr.full [3, 2] 0, nOut := 0, dim := 2 } (.tuple [3, 1]) 1 = .ok h' ∧
+example : ∃ s' h', C11.SIB.fill [] exCount C11.exAv C11.exG ⟨exEdges, NArr.full [3, 2] (0 : Int), []⟩ (.bare [3, 1]) = .ok s' ∧
+    C06.fill C11.exG { edges := exEdges, bins := NArr.full [3, 2] (0 : Int), nOut := 0, dim := 2 } (.tuple [3, 1]) 1 = .ok h' ∧
     h'.bins = s'.bins := by
   obtain ⟨c, _, _, hok⟩ := (C11.fill_one [] exCount C11.exAv C11.exG (s := ⟨exEdges, NArr.full [3, 2] 0, []⟩)
     exEdges_valid (C06.hasShape_full _ _) (.bare [3, 1])).2.2 [2, 1] C11.ex_route_in
